@@ -39,7 +39,7 @@ protocol and evidence are as designed in section 2. Deviations, all in the direc
 
 ADDITIONS = """### 10.5 What the seeded rounds changed in the checks
 
-One hundred changes from five independent rounds (fresh sub-agents, property text only; each later round was told which *kinds* of change the earlier rounds had produced
+One hundred and twenty changes from six independent rounds (fresh sub-agents, property text only; each later round was told which *kinds* of change the earlier rounds had produced
 and asked for different ones) were confirmed and run. Rounds 1-3 (60 changes): 45 were detected by the quick tier as it stood, two more only by the thorough tier, 13 not
 at all. Round 4 (20 changes; column "before" in `seeded/*-agent4/meta.json: detected_before_strengthening`, measured by running the previous commit of `/verif` against each
 changed tree): 11 detected by the quick tier as it stood, one more only by the thorough tier (C02), 8 not at all (C01, C03, C04, C06, C07, C09, C10, C18).
@@ -85,9 +85,23 @@ Every miss pointed at a *class* of input the generator did not produce, and the 
   C12: templates enter the registry through every documented path and the main template is passed as named / unnamed / same-named object or by key. C13: *equal-valued items*
   (Waste compares by value) with multiset attribution in the accounting model. C19: amplification factors 0.01..200 and a complete table of passing 2-3 stage pipelines
   (the two accepted readings of "clamped product" had hidden a pinned-at-ceiling result).
+* **Round 6 (asked for what a randomized check of the main call would *not* expose: boundaries of internal constants, long histories, two rarely used features
+  together, convenience entry points, collaborator contracts, input shapes, tie-breaking, type confusion).** As it stood the quick tier detected 6 of 20 (C01, C04, C09, C12,
+  C16, C17), the thorough tier one more (C14), 13 were missed - the round was built to find the technique's weak spot and did. What was added, by class:
+  *long lives* - C05 `prelog` (a store whose audit log is already full), C18 20/70 earlier calls, C20 70..1010 alternating mutations, C10 thousands of inputs between a block
+  and its relaxation (C04/C07/C08/C09/C06/C19 had got their bulk histories after round 4, which is why C09's 1001st-event deadlock was caught as it stood);
+  *blocking hangs* - C04 now runs under the lock shim (a self-deadlock burns no CPU, so the CPU guard cannot see it); *wide inputs* - C02 flat chains / argument lists of up to
+  120 items around the nesting limit; *values outside the obvious universe* - C03 non-enum capability tags and allow-lists larger than the enum, C11 escapes and unpaired
+  surrogates, C19/C06/C13/C14/C18/C07/C08 exceptions without a message (two harness bugs surfaced here and were fixed before any commit: C18 recognised its own stub
+  exceptions by message text; C13's first built-in accounting identity forgot the emergency-dropped category the statement allows); *rarely used features together* - C06
+  EmergencyQuorum + set_strategy, C07 timeout_seconds + slow agents (real 20 ms sleeps), C15 watchdog_exempt + deadlock handling (plus a new obligation: a reported real cycle
+  must be handled), C13 the lysosome's *own* digesters, which the harness had always replaced by instrumented ones, over 14 content shapes incl. cyclic and cleanup()-bearing
+  objects. One tolerance was **tightened**: C08 used to treat "executor FAILURE masked by an assessor BLOCK" as ambiguous (either counting accepted); the statement says
+  intentional blocks are never counted, the loop itself reports such a request as BLOCKED, so it is now an intentional block (quiet on the unchanged tree at all seeds tried).
+  Not strengthened: C14-agent6 stays a thorough-tier detection (needs an id reused three times with a preemption in between).
 * **One oracle bug found on the way** (no registered run was affected): C02 compared complex NaN results with `==`; now component-wise with NaN == NaN.
 
-After these changes all one hundred seeded changes are detected by the quick tier (table above; `python3 tools/run_mutants.py --seeded` re-runs them).
+After these changes 119 of the 120 seeded changes are detected by the quick tier and C14-agent6 by the thorough tier (table above; `python3 tools/run_mutants.py --seeded` re-runs them).
 """
 
 
